@@ -3,8 +3,10 @@ package htsim
 import (
 	"bytes"
 	"crypto/sha256"
+	"crypto/tls"
 	"encoding/json"
 	"fmt"
+	"io"
 	"os"
 	"path"
 	"path/filepath"
@@ -13,6 +15,7 @@ import (
 	"strings"
 	"testing"
 	"testing/synctest"
+	"time"
 
 	"htsim/simnet"
 )
@@ -31,11 +34,12 @@ func init() {
 }
 
 type c11Cmd struct {
-	Verb string `json:"verb"`
-	Path string `json:"path,omitempty"`
-	Data string `json:"data,omitempty"` // upload content
-	Xfer bool   `json:"xfer,omitempty"` // needs a passive data connection
-	Rst  bool   `json:"rst,omitempty"`  // reset the data connection mid-transfer
+	Verb  string `json:"verb"`
+	Path  string `json:"path,omitempty"`
+	Data  string `json:"data,omitempty"`  // upload content
+	Xfer  bool   `json:"xfer,omitempty"`  // needs a passive data connection
+	Rst   bool   `json:"rst,omitempty"`   // reset the data connection mid-transfer
+	Plain bool   `json:"plain,omitempty"` // plain-text data connection (the service expects TLS on it: error path)
 }
 
 var c11Comps = []string{"a", "b", "..", ".", "", "a", "..", "SENTINEL", "secret.txt"}
@@ -43,6 +47,13 @@ var c11Comps = []string{"a", "b", "..", ".", "", "a", "..", "SENTINEL", "secret.
 func c11Path(r *Rng) string {
 	if r.Chance(0.06) {
 		return r.Pick([]string{"....//....//", "../SENTINEL/secret.txt", "/../SENTINEL", "a/../../SENTINEL/secret.txt", "..\\SENTINEL", "/..", "//", "/a/../../..", strings.Repeat("../", 40) + "etc/passwd", "a/" + strings.Repeat("x", 300), ".. ", " ..", "%2e%2e/SENTINEL", "..;/SENTINEL", "~", "~root", "/./../SENTINEL/secret.txt", "..//SENTINEL//secret.txt"})
+	}
+	if r.Chance(0.08) {
+		// names only the harness knows: the root's own directory name (siblings sharing it as a prefix) and
+		// absolute host paths of files beside the root (placeholders are filled in at run time)
+		return r.Pick([]string{"/../@ROOTNAME@-private/secret.txt", "../@ROOTNAME@-private/secret.txt", "/../@ROOTNAME@2/secret.txt", "/a/../../@ROOTNAME@.bak/secret.txt",
+			"/../@ROOTNAME@-private", "../../@ROOTNAME@2", "@TMP@/ftp/SENTINEL/secret.txt", "@TMP@/ftp/SENTINEL", "@TMP@/secret.txt", "@ROOT@/../SENTINEL/secret.txt",
+			"@TMP@/cwd/secret.txt", "secret.txt", "a/f1", "b/f2", "/../@ROOTNAME@/../@ROOTNAME@-private/secret.txt"})
 	}
 	n := r.Range(1, 5)
 	var parts []string
@@ -67,13 +78,48 @@ func genC11(seed uint64, idx int, tier string) *Scenario {
 	if r.Chance(0.5) {
 		ns = 1
 	}
-	verbs := []string{"CWD", "CWD", "CDUP", "PWD", "PWD", "MKD", "RMD", "DELE", "RNFR", "STOR", "APPE", "RETR", "LIST", "NLST", "MDTM", "SIZE", "XCWD", "XMKD", "XRMD", "XPWD", "STAT"}
+	verbs := []string{"CWD", "CWD", "CDUP", "PWD", "PWD", "MKD", "RMD", "DELE", "RNFR", "STOR", "STOR", "APPE", "REST", "RETR", "LIST", "NLST", "MDTM", "SIZE", "XCWD", "XMKD", "XRMD", "XPWD", "STAT"}
 	for s := 0; s < ns; s++ {
 		a := Actor{Kind: "tcp", Name: fmt.Sprintf("f%d", s), Src: clientAddr(s), Dst: sensorIP + ":21"}
 		a.Ops = append(a.Ops, SendOp([]byte("USER anonymous\r\n"), nil, ""), SendOp([]byte("PASS anonymous\r\n"), nil, ""))
 		n := r.Range(1, 5)
 		if r.Chance(0.2) {
 			n = r.Range(6, 12)
+		}
+		if r.Chance(0.25) {
+			// directed multi-step sequence around one target that also names something outside the root:
+			// create the same path inside the root first (MKD chain + STOR), switch to append mode, write again,
+			// then read / stat / rename / delete it
+			target := r.Pick([]string{"@TMP@/ftp/SENTINEL/secret.txt", "@TMP@/secret.txt", "a/f1", "b/f2", "secret.txt", "/../@ROOTNAME@-private/secret.txt",
+				"@TMP@/cwd/a/f1", "../SENTINEL/secret.txt", "/a/../../SENTINEL/secret.txt", "@TMP@/ftp/@ROOTNAME@2/secret.txt"})
+			add := func(c c11Cmd) {
+				ej, _ := json.Marshal(c)
+				a.Ops = append(a.Ops, Op{K: "ftp", Exp: ej})
+			}
+			if r.Chance(0.3) {
+				add(c11Cmd{Verb: "CWD", Path: c11Path(r)})
+			}
+			if strings.HasPrefix(target, "@TMP@") || r.Chance(0.5) {
+				add(c11Cmd{Verb: "MKDCHAIN", Path: target})
+			}
+			add(c11Cmd{Verb: "STOR", Path: target, Data: "first-" + r.word(4, 20), Xfer: true})
+			if r.Chance(0.5) {
+				add(c11Cmd{Verb: "APPE"})
+			} else {
+				add(c11Cmd{Verb: "REST", Path: r.Pick([]string{"0", "3"})})
+			}
+			add(c11Cmd{Verb: "STOR", Path: target, Data: "second-" + r.word(4, 20), Xfer: true})
+			for _, v := range []string{"RETR", "SIZE", "MDTM", "LIST", "RNFR", "DELE"} {
+				if !r.Chance(0.4) {
+					continue
+				}
+				add(c11Cmd{Verb: v, Path: target, Xfer: v == "RETR" || v == "LIST"})
+				if v == "RNFR" {
+					add(c11Cmd{Verb: "RNTO", Path: r.Pick([]string{"renamed", "@TMP@/ftp/SENTINEL/renamed", "../renamed"})})
+				}
+			}
+			sc.Params["directed"] = true
+			n = r.Range(0, 2)
 		}
 		for k := 0; k < n; k++ {
 			v := r.Pick(verbs)
@@ -85,11 +131,16 @@ func genC11(seed uint64, idx int, tier string) *Scenario {
 				ej, _ := json.Marshal(c)
 				a.Ops = append(a.Ops, Op{K: "ftp", Exp: ej})
 				c = c11Cmd{Verb: "RNTO", Path: c11Path(r)}
-			case "STOR", "APPE":
+			case "APPE":
+				// in this server APPE (like REST) only switches the next STOR to append mode
+			case "REST":
+				c.Path = r.Pick([]string{"0", "1", "5", "100000"})
+			case "STOR":
 				c.Path = c11Path(r)
 				c.Data = "upload-" + r.word(4, 40)
 				c.Xfer = true
 				c.Rst = r.Chance(0.15)
+				c.Plain = r.Chance(0.15)
 			case "RETR", "LIST", "NLST":
 				c.Path = c11Path(r)
 				if v != "RETR" && r.Chance(0.3) {
@@ -97,6 +148,7 @@ func genC11(seed uint64, idx int, tier string) *Scenario {
 				}
 				c.Xfer = true
 				c.Rst = r.Chance(0.1)
+				c.Plain = r.Chance(0.15)
 			default:
 				c.Path = c11Path(r)
 			}
@@ -139,6 +191,8 @@ func snapshotTree(root string, skip string) map[string]string {
 	return out
 }
 
+var c11RunDirRe = regexp.MustCompile(`TestWorkerrun-\d+`)
+var c11MdtmRe = regexp.MustCompile(`213 \d{14}`)
 var pasvRe = regexp.MustCompile(`227 [^(]*\((\d+),(\d+),(\d+),(\d+),(\d+),(\d+)\)`)
 var pwdRe = regexp.MustCompile(`(?m)^257 (.*?)\r?$`)
 
@@ -147,7 +201,8 @@ func runC11(t *testing.T, sc *Scenario) Result {
 	var before, after map[string]string
 	var leaked []string
 	var pwds []string
-	xfers, resets := 0, 0
+	xfers, resets, stored, tlsRead := 0, 0, 0, 0
+	var maskTmp, maskRoot string
 	obs := RunScenario(t, sc, func(w *World) {
 		var tmp, ftpRoot string
 		w.PreBoot = func(dir string) { tmp = dir }
@@ -176,6 +231,26 @@ func runC11(t *testing.T, sc *Scenario) Result {
 		os.WriteFile(filepath.Join(tmp, "ftp", "SENTINEL", "sub", "deep.txt"), []byte(c11Secret+"-deep"), 0644)
 		os.WriteFile(filepath.Join(tmp, "secret.txt"), []byte(c11Secret+"-top"), 0644)
 		os.WriteFile(filepath.Join(tmp, "ftp", "secret.txt"), []byte(c11Secret+"-mid"), 0644)
+		// siblings whose names merely start with the root's name
+		rootName := filepath.Base(ftpRoot)
+		for _, sfx := range []string{"-private", "2", ".bak"} {
+			os.MkdirAll(filepath.Join(tmp, "ftp", rootName+sfx), 0755)
+			os.WriteFile(filepath.Join(tmp, "ftp", rootName+sfx, "secret.txt"), []byte(c11Secret+sfx), 0644)
+		}
+		// the process working directory holds files with the same relative names as the tree inside the root
+		cwd := filepath.Join(tmp, "cwd")
+		os.MkdirAll(filepath.Join(cwd, "a", "b"), 0755)
+		os.MkdirAll(filepath.Join(cwd, "b"), 0755)
+		os.WriteFile(filepath.Join(cwd, "a", "f1"), []byte(c11Secret+"-cwd-a-f1"), 0644)
+		os.WriteFile(filepath.Join(cwd, "b", "f2"), []byte(c11Secret+"-cwd-b-f2"), 0644)
+		os.WriteFile(filepath.Join(cwd, "secret.txt"), []byte(c11Secret+"-cwd"), 0644)
+		if old, err := os.Getwd(); err == nil {
+			if os.Chdir(cwd) == nil {
+				defer os.Chdir(old)
+			}
+		}
+		subst := strings.NewReplacer("@TMP@", tmp, "@ROOTNAME@", rootName, "@ROOT@", ftpRoot)
+		maskTmp, maskRoot = tmp, ftpRoot
 		before = snapshotTree(tmp, ftpRoot)
 		check := func(what string, b []byte) {
 			if bytes.Contains(b, []byte("SENTINEL-CONTENT")) || bytes.Contains(b, []byte("deep.txt")) {
@@ -189,6 +264,29 @@ func runC11(t *testing.T, sc *Scenario) Result {
 			}
 			var c c11Cmd
 			json.Unmarshal(op.Exp, &c)
+			c.Path = subst.Replace(c.Path)
+			if c.Verb == "MKDCHAIN" {
+				// MKD every directory prefix of the target
+				dir := path.Dir(c.Path)
+				var acc string
+				for _, comp := range strings.Split(dir, "/") {
+					if comp == "" {
+						if acc == "" && strings.HasPrefix(dir, "/") {
+							acc = "/"
+						}
+						continue
+					}
+					acc = path.Join(acc, comp)
+					if strings.HasPrefix(dir, "/") && !strings.HasPrefix(acc, "/") {
+						acc = "/" + acc
+					}
+					ep.PeerInject([]byte("MKD " + acc + "\r\n"))
+					synctest.Wait()
+					bb := ep.Take()
+					w.Obs.Conns[ai].Recv = append(w.Obs.Conns[ai].Recv, bb...)
+				}
+				return
+			}
 			line := c.Verb
 			if c.Path != "" {
 				line += " " + c.Path
@@ -234,8 +332,60 @@ func runC11(t *testing.T, sc *Scenario) Result {
 			if dc == nil {
 				return
 			}
+			if !c.Plain {
+				// the service wraps every passive data connection in TLS: a TLS client (inside the bubble) on
+				// the data connection is what makes STOR/RETR/LIST really move file contents
+				dc.SetDeadline(time.Now().Add(20 * time.Second))
+				done := make(chan struct{})
+				var got []byte
+				go func() {
+					defer close(done)
+					tc := tls.Client(dc, &tls.Config{InsecureSkipVerify: true})
+					if err := tc.Handshake(); err != nil {
+						dc.Close()
+						return
+					}
+					switch c.Verb {
+					case "STOR":
+						data := []byte(c.Data)
+						if c.Rst {
+							tc.Write(data[:len(data)/2])
+							dc.Reset()
+							return
+						}
+						tc.Write(data)
+						tc.Close()
+					default:
+						if c.Rst {
+							buf := make([]byte, 8)
+							n, _ := tc.Read(buf)
+							got = buf[:n]
+							dc.Reset()
+							return
+						}
+						got, _ = io.ReadAll(tc)
+						tc.Close()
+					}
+				}()
+				<-done
+				if c.Rst {
+					resets++
+				}
+				if c.Verb != "STOR" {
+					check("data of "+line, got)
+					if len(got) > 0 {
+						tlsRead++
+					}
+				}
+				b = drain()
+				check("reply after "+line, b)
+				if c.Verb == "STOR" && bytes.Contains(b, []byte("226 ")) {
+					stored++
+				}
+				return
+			}
 			switch c.Verb {
-			case "STOR", "APPE":
+			case "STOR":
 				data := []byte(c.Data)
 				if c.Rst {
 					dc.PeerInject(data[:len(data)/2])
@@ -270,9 +420,26 @@ func runC11(t *testing.T, sc *Scenario) Result {
 		// error replies quote host paths: mask them so that traces are comparable between runs
 		for i := range w.Obs.Conns {
 			b := bytes.ReplaceAll(w.Obs.Conns[i].Recv, []byte(ftpRoot), []byte("@ROOT@"))
-			w.Obs.Conns[i].Recv = bytes.ReplaceAll(b, []byte(tmp), []byte("@TMP@"))
+			b = bytes.ReplaceAll(b, []byte(tmp), []byte("@TMP@"))
+			b = c11RunDirRe.ReplaceAll(b, []byte("TestWorkerrun-@"))
+			// MDTM reports the host file's modification time (real clock of the real temp dir)
+			w.Obs.Conns[i].Recv = c11MdtmRe.ReplaceAll(b, []byte("213 @MTIME@"))
 		}
 	})
+	// commands may quote host paths (absolute targets) and the random root name: mask them in the events too
+	if maskTmp != "" {
+		rep := strings.NewReplacer(maskRoot, "@ROOT@", maskTmp, "@TMP@", filepath.Base(maskRoot), "@ROOTNAME@")
+		for _, e := range obs.Events {
+			for k, v := range e.M {
+				if sv, ok := v.(string); ok && strings.Contains(sv, filepath.Base(maskRoot)) || ok && strings.Contains(sv, maskTmp) {
+					e.M[k] = rep.Replace(sv)
+				}
+				if sv, ok := e.M[k].(string); ok && strings.Contains(sv, "TestWorkerrun-") {
+					e.M[k] = c11RunDirRe.ReplaceAllString(sv, "TestWorkerrun-@")
+				}
+			}
+		}
+	}
 	res.Digest = traceDigest(obs, map[string]bool{"ftp.sessionid": true})
 	res.Steps, res.SimMs = obs.Steps, obs.SimMs
 	res.Nontriv = true
@@ -281,6 +448,8 @@ func runC11(t *testing.T, sc *Scenario) Result {
 		return res
 	}
 	res.probe("transfers", xfers)
+	res.probe("uploads-completed", stored)
+	res.probe("downloads-with-data", tlsRead)
 	res.fault("data-connection-reset", resets)
 	if len(leaked) > 0 {
 		res.Violate("content-outside-root-disclosed", "ftp", leaked[0])
